@@ -104,10 +104,12 @@ pub fn check(deep: bool, st: &mut TStats, fails: &mut Vec<Failure>) {
             for (mi, m) in sample_interpretations(&uni, n_interp, seed).into_iter().enumerate() {
                 // placeholder values: the TPTP names carry the sort suffix, the source formula sees "@name"
                 let (n, c, d) = (Val::Int((mi % 3) as i128), Val::Sym(if mi % 2 == 0 { "a" } else { "b" }.into()), if mi % 4 < 2 { Val::Int(1) } else { Val::Sym("a".into()) });
-                let consts: std::collections::HashMap<String, Val> = [("n_i", &n), ("@n", &n), ("c_s", &c), ("@c", &c), ("d_g", &d), ("@d", &d)].into_iter().map(|(k, v)| (k.to_string(), v.clone())).collect();
+                let consts: std::collections::HashMap<String, Val> = [("@n", &n), ("@c", &c), ("@d", &d)].into_iter().map(|(k, v)| (k.to_string(), v.clone())).collect();
+                let consts_rendered: std::collections::HashMap<String, Val> = [("n_i", &n), ("c_s", &c), ("d_g", &d)].into_iter().map(|(k, v)| (k.to_string(), v.clone())).collect();
+                let mr = Ht { here: m.there.clone(), there: m.there.clone(), consts: consts_rendered };
                 let m = Ht { here: m.there.clone(), there: m.there, consts };
                 evals += 1;
-                let (a, b) = (cl_sat(&src, &dom, &m), cl_sat(rendered, &dom, &m));
+                let (a, b) = (cl_sat(&src, &dom, &m), cl_sat(rendered, &dom, &mr));
                 if a { t = true } else { fa = true }
                 if a != b {
                     fl.push(Failure { property: "C06", input: format!("{what}`spec: {f}.`"), detail: format!("the source formula is {a} but its TPTP rendering (read back as `{rendered}`) is {b} in {{{}}}", m.show()) });
